@@ -25,7 +25,18 @@ TRetain ==
      IN /\ failed' = failed \cup {<<e.case, l, f>> : f \in bad}
         /\ stat' = [stat EXCEPT !.retains = @ + 1, !.chunks = @ + e.chunks, !.bytes = @ + e.bytes]
   /\ l' = l + 1
-TSpec == TInit /\ [][TRetain]_tvars
+\* a proxied gzip upload whose backend failed while the client was still sending, then another gzip upload on the same
+\* mux: the second call's backend receives exactly the second call's messages (C13: nothing of one request reaches another,
+\* also when the first one's forwarder has not finished with its body yet)
+TOverlap ==
+  /\ l <= Len(Trace) /\ Trace[l].ev = "Overlap"
+  /\ LET e == Trace[l]
+         bad == IF e.crash # "" THEN {"Crash"}
+                ELSE IF e.status = 200 /\ e.got = e.sent THEN {} ELSE {"IsolatedAfterBackendFailure"}
+     IN /\ failed' = failed \cup {<<e.case, l, f>> : f \in bad}
+        /\ stat' = [stat EXCEPT !.retains = @ + 1]
+  /\ l' = l + 1
+TSpec == TInit /\ [][TRetain \/ TOverlap]_tvars
 Report == l > Len(Trace) =>
             PrintT(<<"REPORT", ToJson([consumed |-> l - 1, len |-> Len(Trace), failed |-> failed, stat |-> stat])>>)
 =============================================================================
